@@ -7,9 +7,13 @@ from . import iso_tables as T
 
 # --------------------------------------------------------------- expand_message (section 5.3)
 
-HASHES = {
+HASHES = {   # name -> (constructor, output size b, input block size s)
     "sha256": (hashlib.sha256, 32, 64),
     "sha512": (hashlib.sha512, 64, 128),
+    "sha224": (hashlib.sha224, 28, 64),
+    "sha384": (hashlib.sha384, 48, 128),
+    "sha512_224": (lambda d=b"": hashlib.new("sha512_224", d), 28, 128),
+    "sha512_256": (lambda d=b"": hashlib.new("sha512_256", d), 32, 128),
 }
 
 
@@ -38,7 +42,7 @@ def expand_message_xof(msg, dst, len_in_bytes, h="shake128"):
 
 
 def expand_message(x, msg, dst, n):
-    if x in ("sha256", "sha512"):
+    if x in HASHES:
         return expand_message_xmd(msg, dst, n, x)
     return expand_message_xof(msg, dst, n, x)
 
